@@ -111,7 +111,8 @@ def nrStep (f : α → α) (cfg : NRConfig α) (n : Nat) (s : NRState α) : NRSt
     let s5 : NRState α := { s4 with it0 := s4.it1, it1 := s4.it2, it2 := x' }
     let scale := maxv (absv s5.it1) cfg.atol
     let ad := absv (s5.it2 - s5.it1)
-    if ad < cfg.atol ∧ ad / scale < cfg.rtol then .converged s5.it2 else .continue s5
+    -- the step test is only applied after a regular step, not after an Aitken extrapolation
+    if (cfg.aitken && n % 3 == 0) = false ∧ ad < cfg.atol ∧ ad / scale < cfg.rtol then .converged s5.it2 else .continue s5
 
 def nrLoop (f : α → α) (cfg : NRConfig α) : Nat → Nat → NRState α → Option α
   | 0, _, s => if cfg.errorOnMaxIter then none else some s.it2
